@@ -1,3 +1,8 @@
+pub mod c15;
 pub mod c17;
+pub mod direct;
+pub mod frontends;
+pub mod lib_level;
 pub mod outputs;
+pub mod procs;
 pub mod tree;
